@@ -22,11 +22,12 @@ package simrt
 
 import (
 	"fmt"
-	"sort"
 	"reflect"
 	"runtime"
+	"sort"
 	"sync"
 	"syscall"
+	"time"
 	"unsafe"
 )
 
@@ -78,6 +79,9 @@ const (
 	stDone
 )
 
+// idleAddr is what a task polling channels (an instrumented select) is blocked on: any step of another task wakes it.
+const idleAddr = ^uintptr(0)
+
 type task struct {
 	id     int
 	p      pipe
@@ -107,6 +111,9 @@ type Sched struct {
 	Panics   []interface{}
 	last     int
 	seq      int64
+	reg      pipe
+	wg       sync.WaitGroup
+	Spawned  int // goroutines the code under test started itself and that ran as scheduled tasks
 }
 
 var cur *Sched // one simulation at a time per process
@@ -170,27 +177,25 @@ func Stamp() int64 {
 //
 //go:norace
 func Run(ch Chooser, maxSteps int, fns ...func()) (*Sched, error) {
-	s := &Sched{back: newPipe(), ch: ch, MaxSteps: maxSteps, last: -1}
+	s := &Sched{back: newPipe(), ch: ch, MaxSteps: maxSteps, last: -1, reg: newPipe()}
 	defer s.back.close()
-	var wg sync.WaitGroup
-	reg := newPipe()
-	defer reg.close()
+	defer s.reg.close()
 	for i, fn := range fns {
 		s.tasks = append(s.tasks, &task{id: i, p: newPipe(), fn: fn})
 		s.goids = append(s.goids, 0)
 	}
-	s.Panics = make([]interface{}, len(fns))
 	cur = s
-	for _, t := range s.tasks {
-		wg.Add(1)
-		go s.taskMain(t, reg, &wg)
-		reg.wait()
+	for i := 0; i < len(fns); i++ {
+		s.wg.Add(1)
+		go s.taskMain(s.tasks[i])
+		s.reg.wait()
 	}
 	err := s.loop()
 	if err == nil {
-		wg.Wait()
+		s.wg.Wait()
 	}
 	cur = nil
+	s.Panics = make([]interface{}, len(s.tasks))
 	for _, t := range s.tasks {
 		s.Panics[t.id] = t.panicV
 		if err == nil {
@@ -200,11 +205,45 @@ func Run(ch Chooser, maxSteps int, fns ...func()) (*Sched, error) {
 	return s, err
 }
 
+// Go replaces `go func() {...}()` in the anchored files of the instrumented copy: a goroutine started by a
+// registered task becomes a task of its own, so the scheduler decides when it runs relative to everybody else
+// (a goroutine started outside a simulation, or by an unregistered goroutine, is started as usual).
+//
 //go:norace
-func (s *Sched) taskMain(t *task, reg pipe, wg *sync.WaitGroup) {
-	defer wg.Done()
+func Go(fn func()) {
+	s := cur
+	if s == nil || me() == nil {
+		go fn()
+		return
+	}
+	t := &task{id: len(s.tasks), p: newPipe(), fn: fn}
+	s.tasks = append(s.tasks, t)
+	s.goids = append(s.goids, 0)
+	s.Spawned++
+	s.wg.Add(1)
+	go s.taskMain(t)
+	s.reg.wait()
+}
+
+// Idle is called by an instrumented select (rewritten into a polling loop) when none of its cases is ready: the
+// task is blocked until some other task has made a step.  Outside a simulation it sleeps briefly.
+//
+//go:norace
+func Idle(site int) {
+	t := me()
+	if t == nil {
+		time.Sleep(20 * time.Microsecond)
+		return
+	}
+	t.site = site
+	blockOn(t, idleAddr)
+}
+
+//go:norace
+func (s *Sched) taskMain(t *task) {
+	defer s.wg.Done()
 	s.goids[t.id] = goid()
-	reg.signal(1)
+	s.reg.signal(1)
 	t.p.wait()
 	defer s.finish(t)
 	t.fn()
@@ -240,7 +279,7 @@ func (s *Sched) loop() error {
 			return nil
 		}
 		if len(en) == 0 {
-			return fmt.Errorf("deadlock: all %d live tasks are blocked on instrumented locks", alive)
+			return fmt.Errorf("deadlock: all %d live tasks are blocked on instrumented locks or channels", alive)
 		}
 		if s.Steps >= s.MaxSteps {
 			return fmt.Errorf("step cap (%d) reached", s.MaxSteps)
@@ -262,6 +301,16 @@ func (s *Sched) loop() error {
 		s.Steps++
 		t.p.signal(1)
 		s.back.wait()
+		if !(t.state == stBlocked && t.waitOn == idleAddr) {
+			// a step that did something (not a fruitless poll): tasks polling channels look again.  A poll that
+			// found nothing ready changes nothing for the others; waking them on it would let two pollers keep
+			// each other busy for ever under a strategy that prefers them (PCT).
+			for _, o := range s.tasks {
+				if o != t && o.state == stBlocked && o.waitOn == idleAddr {
+					o.state = stRunnable
+				}
+			}
+		}
 	}
 }
 
